@@ -612,9 +612,34 @@ func (sc *scenario) runQuery(g storage.Graph, q query, lo *storage.LookupOptions
 // result statistics of the lookups digested so far: [empty, non-empty, error, elements]
 var lkStats [4]int
 
+// distinct non-trivial lookups of the current history: (graph content, query, options) with a non-empty result
+var lkDistinct = map[[3]uint64]bool{}
+
+func contentKey(g storage.Graph) uint64 {
+	c := make(chan *triple.Triple, chanCap)
+	must(g.Triples(context.Background(), storage.DefaultLookup, c))
+	h := uint64(7)
+	for t := range c {
+		h = dlist(h, []uint64{uint64(len(t.String()))})
+		for _, b := range []byte(t.String()) {
+			h = dmix(h, uint64(b))
+		}
+	}
+	return h
+}
+
+func bytesToU64(b []byte) []uint64 {
+	out := make([]uint64, len(b))
+	for i, x := range b {
+		out[i] = uint64(x)
+	}
+	return out
+}
+
 func (sc *scenario) digestState(objs []storage.Graph, qs []query, los []lopts) uint64 {
 	h := uint64(0)
 	for _, g := range objs {
+		ck := contentKey(g)
 		for _, q := range qs {
 			for _, lo := range los {
 				enc := sc.runQuery(g, q, lo.build())
@@ -626,6 +651,8 @@ func (sc *scenario) digestState(objs []storage.Graph, qs []query, los []lopts) u
 				default:
 					lkStats[1]++
 					lkStats[3] += int(enc[1])
+					lj, _ := json.Marshal(lo)
+					lkDistinct[[3]uint64{ck, uint64(q.K*10000 + q.A*100 + q.B), dlist(0, bytesToU64(lj))}] = true
 				}
 				h = dlist(h, enc)
 			}
@@ -945,6 +972,7 @@ type histOut struct {
 	Pages    int       `json:"pages_checked"`
 	Lookups  int       `json:"lookups"`
 	LkStats  [4]int    `json:"lookup_stats"` // empty, non-empty, error, elements returned
+	LkDist   int       `json:"lookup_distinct_nonempty"`
 }
 
 type jstep struct {
@@ -957,6 +985,7 @@ func histSeed(seed int64, idx int) int64 { return seed*1000003 + int64(idx)*7919
 func genHistory(seed int64, idx int, maxops int, usize int, c02, c09 bool, uptoStep int) (*world, histOut, []opx) {
 	r := rand.New(rand.NewSource(histSeed(seed, idx)))
 	lkStats = [4]int{}
+	lkDistinct = map[[3]uint64]bool{}
 	sc := randomScenario(r, usize)
 	w := newWorld(sc)
 	out := histOut{Kind: "hist", Idx: idx, Names: sc.nNames, Pools: sc.jPools(), PagesBad: []pageBad{}}
@@ -1036,6 +1065,7 @@ func genHistory(seed int64, idx int, maxops int, usize int, c02, c09 bool, uptoS
 		}
 		out.Steps = append(out.Steps, jstep{o.json(), ob})
 		out.LkStats = lkStats
+		out.LkDist = len(lkDistinct)
 		if uptoStep >= 0 && i == uptoStep {
 			break
 		}
@@ -1137,30 +1167,42 @@ func runShared(workers, calls int) {
 	w := newWorld(sc)
 	w.apply(opx{kind: "new", n: 0})
 	w.apply(opx{kind: "add", h: 0, is: []int{0, 1, 2, 3}})
-	lo := &storage.LookupOptions{LatestAnchor: true}
-	var wg sync.WaitGroup
-	var mu sync.Mutex
-	errs, wrong := 0, 0
-	want := fmt.Sprint(sc.runQuery(w.objs[0], query{10, 0, 0}, &storage.LookupOptions{LatestAnchor: true}))
-	for i := 0; i < workers; i++ {
-		wg.Add(1)
-		go func() {
-			defer wg.Done()
-			for j := 0; j < calls; j++ {
-				got := sc.runQuery(w.objs[0], query{10, 0, 0}, lo)
-				mu.Lock()
-				if got[0] != 0 {
-					errs++
-				} else if fmt.Sprint(got) != want {
-					wrong++
+	errs, wrong, total := 0, 0, 0
+	restored := true
+	perKind := map[int]int{}
+	// every lookup method, with arguments taken from the stored temporal triple
+	for k := 0; k <= 10; k++ {
+		q := sc.queryFrom(sc.univ[1], k)
+		lo := &storage.LookupOptions{LatestAnchor: true}
+		want := fmt.Sprint(sc.runQuery(w.objs[0], q, &storage.LookupOptions{LatestAnchor: true}))
+		var wg sync.WaitGroup
+		var mu sync.Mutex
+		for i := 0; i < workers; i++ {
+			wg.Add(1)
+			go func() {
+				defer wg.Done()
+				for j := 0; j < calls; j++ {
+					got := sc.runQuery(w.objs[0], q, lo)
+					mu.Lock()
+					total++
+					if got[0] != 0 {
+						errs++
+						perKind[k]++
+					} else if fmt.Sprint(got) != want {
+						wrong++
+						perKind[k]++
+					}
+					mu.Unlock()
 				}
-				mu.Unlock()
-			}
-		}()
+			}()
+		}
+		wg.Wait()
+		if lo.FilterOptions != nil {
+			restored = false
+		}
 	}
-	wg.Wait()
-	emit(map[string]interface{}{"kind": "shared", "workers": workers, "calls": workers * calls, "errors": errs, "wrong": wrong,
-		"options_restored": lo.FilterOptions == nil})
+	emit(map[string]interface{}{"kind": "shared", "workers": workers, "calls": total, "errors": errs, "wrong": wrong,
+		"options_restored": restored, "failures_per_method": perKind})
 }
 
 // ---------------------------------------------------------------- mode detail
